@@ -55,7 +55,118 @@ theorem frac_scale_invariant (xs : List ℚ) (c : ℚ) (hc : c ≠ 0) :
   · simp [h0]
   · field_simp
 
+/-! ### the three fraction kinds, from the stored contents -/
+
+theorem sum_map_mul_left (xs : List ℚ) (c : ℚ) : (xs.map (fun x => c * x)).sum = c * xs.sum := by
+  induction xs with
+  | nil => simp
+  | cons x xs ih => simp [ih, mul_add]
+
+/-- **mole fractions are atom-number fractions**: Avogadro's constant cancels, so the mole fractions
+are the shares of the stored atom counts whatever (non-zero) value the constant has -/
+theorem mole_fractions_eq_number_shares (av : ℚ) (hav : av ≠ 0) (ns : List Nuc) :
+    moleFractions av ns = fracs (ns.map (·.N)) := by
+  have h : moleReadouts av ns = (ns.map (·.N)).map (fun x => av⁻¹ * x) := by
+    simp [moleReadouts, List.map_map, Function.comp_def, div_eq_inv_mul]
+  rw [moleFractions, h, frac_scale_invariant _ _ (inv_ne_zero hav)]
+
+/-- **mass fractions do not depend on Avogadro's constant** either -/
+theorem mass_fractions_eq_weighted_shares (av : ℚ) (hav : av ≠ 0) (ns : List Nuc) :
+    massFractions av ns = fracs (ns.map (fun n => n.N * n.mass)) := by
+  have h : massReadouts av ns = (ns.map (fun n => n.N * n.mass)).map (fun x => av⁻¹ * x) := by
+    simp only [massReadouts, List.map_map, Function.comp_def]
+    apply List.map_congr_left
+    intro n _
+    rw [div_eq_mul_inv]; ring
+  rw [massFractions, h, frac_scale_invariant _ _ (inv_ne_zero hav)]
+
+/-- scaling the inventory (`inv * c`, `c * inv`, `inv / c⁻¹`) leaves all three fraction kinds unchanged -/
+def scaleNuc (c : ℚ) (n : Nuc) : Nuc := ⟨c * n.N, n.lam, n.mass⟩
+
+theorem activity_fractions_scale (c : ℚ) (hc : c ≠ 0) (ns : List Nuc) :
+    activityFractions (ns.map (scaleNuc c)) = activityFractions ns := by
+  have h : activityReadouts (ns.map (scaleNuc c)) = (activityReadouts ns).map (fun x => c * x) := by
+    simp [activityReadouts, scaleNuc, List.map_map, Function.comp_def, mul_assoc]
+  rw [activityFractions, h, frac_scale_invariant _ _ hc, activityFractions]
+
+theorem mass_fractions_scale (av c : ℚ) (hc : c ≠ 0) (ns : List Nuc) :
+    massFractions av (ns.map (scaleNuc c)) = massFractions av ns := by
+  have h : massReadouts av (ns.map (scaleNuc c)) = (massReadouts av ns).map (fun x => c * x) := by
+    simp only [massReadouts, scaleNuc, List.map_map, Function.comp_def]
+    apply List.map_congr_left
+    intro n _
+    ring
+  rw [massFractions, h, frac_scale_invariant _ _ hc, massFractions]
+
+theorem mole_fractions_scale (av c : ℚ) (hc : c ≠ 0) (ns : List Nuc) :
+    moleFractions av (ns.map (scaleNuc c)) = moleFractions av ns := by
+  have h : moleReadouts av (ns.map (scaleNuc c)) = (moleReadouts av ns).map (fun x => c * x) := by
+    simp only [moleReadouts, scaleNuc, List.map_map, Function.comp_def]
+    apply List.map_congr_left
+    intro n _
+    ring
+  rw [moleFractions, h, frac_scale_invariant _ _ hc, moleFractions]
+
+/-- **invariance under the creation unit**: an inventory created from masses `g` (in grams) has
+exactly those masses as its mass read-outs, hence mass fractions equal to the shares of the input;
+likewise for amounts of substance and activities.  The hypotheses are the ones under which the
+constructor accepts the input (non-zero atomic mass / Avogadro constant / decay constant). -/
+theorem mass_readout_of_fromMass (av : ℚ) (hav : av ≠ 0) (xs : List (ℚ × ℚ × ℚ))
+    (hm : ∀ x ∈ xs, x.2.2 ≠ 0) :
+    massReadouts av (xs.map (fun x => fromMass av x.1 x.2.1 x.2.2)) = xs.map (·.1) := by
+  simp only [massReadouts, fromMass, List.map_map, Function.comp_def]
+  apply List.map_congr_left
+  intro x hx
+  have := hm x hx
+  field_simp
+
+theorem mass_fractions_created_from_mass (av : ℚ) (hav : av ≠ 0) (xs : List (ℚ × ℚ × ℚ))
+    (hm : ∀ x ∈ xs, x.2.2 ≠ 0) :
+    massFractions av (xs.map (fun x => fromMass av x.1 x.2.1 x.2.2)) = fracs (xs.map (·.1)) := by
+  rw [massFractions, mass_readout_of_fromMass av hav xs hm]
+
+theorem mole_fractions_created_from_moles (av : ℚ) (hav : av ≠ 0) (xs : List (ℚ × ℚ × ℚ)) :
+    moleFractions av (xs.map (fun x => fromMoles av x.1 x.2.1 x.2.2)) = fracs (xs.map (·.1)) := by
+  have h : moleReadouts av (xs.map (fun x => fromMoles av x.1 x.2.1 x.2.2)) = xs.map (·.1) := by
+    simp only [moleReadouts, fromMoles, List.map_map, Function.comp_def]
+    apply List.map_congr_left
+    intro x _
+    field_simp
+  rw [moleFractions, h]
+
+theorem activity_fractions_created_from_activity (xs : List (ℚ × ℚ × ℚ))
+    (hl : ∀ x ∈ xs, x.2.1 ≠ 0) :
+    activityFractions (xs.map (fun x => fromActivity x.1 x.2.1 x.2.2)) = fracs (xs.map (·.1)) := by
+  have h : activityReadouts (xs.map (fun x => fromActivity x.1 x.2.1 x.2.2)) = xs.map (·.1) := by
+    simp only [activityReadouts, fromActivity, List.map_map, Function.comp_def]
+    apply List.map_congr_left
+    intro x hx
+    have := hl x hx
+    field_simp
+  rw [activityFractions, h]
+
+/-- a stable nuclide (decay constant 0) has activity fraction 0 -/
+theorem activity_fraction_stable (ns : List Nuc) (i : ℕ) (h : i < ns.length) (hs : ns[i].lam = 0) :
+    (activityFractions ns)[i]'(by simpa [activityFractions, fracs, activityReadouts] using h) = 0 := by
+  simp [activityFractions, fracs, activityReadouts, hs]
+
+/-- **shares are additive**: the fractions of any leading group of nuclides add up to the group's
+read-out divided by the total (with `frac_perm` below: of any group) -/
+theorem frac_group_additive (xs : List ℚ) (k : ℕ) :
+    ((fracs xs).take k).sum = (xs.take k).sum / xs.sum := by
+  unfold fracs
+  rw [← List.map_take, sum_map_div]
+
+/-- **the order of the nuclides does not matter**: permuting the read-outs permutes the fractions -/
+theorem frac_perm (xs ys : List ℚ) (h : xs.Perm ys) : (fracs xs).Perm (fracs ys) := by
+  unfold fracs
+  rw [h.sum_eq]
+  exact h.map _
+
 /-! non-vacuity -/
+example : moleFractions 7 [⟨1, 2, 3⟩, ⟨3, 5, 7⟩] = [1/4, 3/4] := by decide +kernel
+example : massFractions 7 [fromMass 7 2 1 3, fromMass 7 6 1 5] = [1/4, 3/4] := by decide +kernel
+example : activityFractions [fromActivity 2 3 1, fromActivity 6 5 1] = [1/4, 3/4] := by decide +kernel
 example : fracs [1, 3] = [1/4, 3/4] := by decide +kernel
 example : (fracs [1, 3, 4]).sum = 1 := frac_sum_one _ (by decide +kernel)
 
